@@ -106,13 +106,18 @@ PROPS["C01"] = dict(
     ],
 )
 
+# n <= 8 elements: the upper-bits vector is one word, so the 4-word AVX2 block popcount inside scan_select is
+# unreachable; its lane loops keep the small global bound (an unwinding assertion fails if that ever changes)
+NOAVX = {r"core_arch.*_mm256_": 9}
 EFU = dict(SEL64)
 EFU.update({"advance_by": 66})
+EFU.update(NOAVX)
 
 
 def efk(k):
     d = dict(SEL64)
     d["advance_by"] = k
+    d.update(NOAVX)
     return d
 
 
@@ -141,28 +146,28 @@ PROPS["C03"] = dict(
         H("c03_get_n6_last1m", tier="thorough", timeout=900, unwindset=EFU, bounds="n=6, last=2^20"),
         H("c03_get_n8_last1000", tier="thorough", timeout=900, unwindset=EFU, bounds="n=8, last=1000"),
         H("c03_get_n8_last7", tier="thorough", timeout=900, unwindset=EFU, bounds="n=8, last=7 (dense)"),
-        H("c03_pred_n4_last1000", tier="quick", mem_gb=24, timeout=900, unwindset=PRED4, bounds="n=4, last=1000, all q"),
-        H("c03_pred_n4_lastmax", tier="thorough", mem_gb=24, timeout=900, unwindset=PRED4, bounds="n=4, last=u32::MAX, all q"),
-        H("c03_pred_n6_last5", tier="thorough", mem_gb=24, timeout=900, unwindset=PRED4, bounds="n=6, last=5 (duplicates forced)"),
-        H("c03_pred_n8_last1000", tier="thorough", mem_gb=24, timeout=1800, unwindset=PRED8, bounds="n=8, last=1000"),
-        H("c03_iter_n4_last1000", tier="quick", mem_gb=24, timeout=600, unwindset=EFU, bounds="n=4 iteration"),
-        H("c03_iter_n6_last1m", tier="thorough", mem_gb=24, timeout=900, unwindset=EFU, bounds="n=6 iteration"),
-        H("c03_iter_n5_last4", tier="thorough", mem_gb=24, timeout=600, unwindset=EFU, bounds="n=5 dense iteration"),
-        H("c03_cursor_current_n4_last1000", tier="quick", mem_gb=24, timeout=1200, unwindset=efk(8), bounds="one-step induction: current_n4_last1000"),
-        H("c03_cursor_adv1_n4_last1000", tier="quick", mem_gb=24, timeout=1200, unwindset=efk(8), bounds="one-step induction: adv1_n4_last1000"),
-        H("c03_cursor_advby_n4_last1000", tier="quick", mem_gb=24, timeout=1200, unwindset=efk(8), bounds="one-step induction: advby_n4_last1000"),
-        H("c03_cursor_seek_n4_last1000", tier="quick", mem_gb=24, timeout=1200, unwindset=efk(8), bounds="one-step induction: seek_n4_last1000"),
-        H("c03_cursor_adv1_n4_lastmax", tier="thorough", mem_gb=24, timeout=1200, unwindset=efk(8), bounds="one-step induction: adv1_n4_lastmax"),
-        H("c03_cursor_advby_n4_lastmax", tier="thorough", mem_gb=24, timeout=1200, unwindset=efk(8), bounds="one-step induction: advby_n4_lastmax"),
-        H("c03_cursor_adv1_n6_last5", tier="thorough", mem_gb=24, timeout=1200, unwindset=efk(10), bounds="one-step induction: adv1_n6_last5"),
-        H("c03_cursor_advby_n6_last5", tier="thorough", mem_gb=24, timeout=1200, unwindset=efk(10), bounds="one-step induction: advby_n6_last5"),
-        H("c03_cursor_seek_n6_last5", tier="thorough", mem_gb=24, timeout=1200, unwindset=efk(10), bounds="one-step induction: seek_n6_last5"),
-        H("c03_cursor_adv1_n8_last1000", tier="thorough", mem_gb=24, timeout=1200, unwindset=efk(12), bounds="one-step induction: adv1_n8_last1000"),
-        H("c03_cursor_advby_n8_last1000", tier="thorough", mem_gb=24, timeout=1200, unwindset=efk(12), bounds="one-step induction: advby_n8_last1000"),
-        H("c03_cursor_adv1_n6_last300", tier="thorough", mem_gb=24, timeout=1200, unwindset=efk(10), bounds="one-step induction: adv1_n6_last300"),
-        H("c03_cursor_advby_n6_last300", tier="thorough", mem_gb=24, timeout=1200, unwindset=efk(10), bounds="one-step induction: advby_n6_last300"),
-        H("c03_cursor_exhausted_n4_last1000", tier="quick", mem_gb=24, timeout=1200, unwindset=efk(8), bounds="any op after exhaustion"),
-        H("c03_cursor0_and_empty", tier="quick", mem_gb=24, timeout=600, unwindset=EFU, bounds="cursor()==cursor_from(0); empty sequence"),
+        H("c03_pred_n4_last1000", tier="quick", mem_gb=16, timeout=900, unwindset=PRED4, bounds="n=4, last=1000, all q"),
+        H("c03_pred_n4_lastmax", tier="thorough", mem_gb=16, timeout=900, unwindset=PRED4, bounds="n=4, last=u32::MAX, all q"),
+        H("c03_pred_n6_last5", tier="thorough", mem_gb=16, timeout=900, unwindset=PRED4, bounds="n=6, last=5 (duplicates forced)"),
+        H("c03_pred_n8_last1000", tier="thorough", mem_gb=16, timeout=1800, unwindset=PRED8, bounds="n=8, last=1000"),
+        H("c03_iter_n4_last1000", tier="quick", mem_gb=16, timeout=600, unwindset=EFU, bounds="n=4 iteration"),
+        H("c03_iter_n6_last1m", tier="thorough", mem_gb=16, timeout=900, unwindset=EFU, bounds="n=6 iteration"),
+        H("c03_iter_n5_last4", tier="thorough", mem_gb=16, timeout=600, unwindset=EFU, bounds="n=5 dense iteration"),
+        H("c03_cursor_current_n4_last1000", tier="quick", mem_gb=16, timeout=1200, unwindset=efk(8), bounds="one-step induction: current_n4_last1000"),
+        H("c03_cursor_adv1_n4_last1000", tier="quick", mem_gb=16, timeout=1200, unwindset=efk(8), bounds="one-step induction: adv1_n4_last1000"),
+        H("c03_cursor_advby_n4_last1000", tier="quick", mem_gb=16, timeout=1200, unwindset=efk(8), bounds="one-step induction: advby_n4_last1000"),
+        H("c03_cursor_seek_n4_last1000", tier="quick", mem_gb=16, timeout=1200, unwindset=efk(8), bounds="one-step induction: seek_n4_last1000"),
+        H("c03_cursor_adv1_n4_lastmax", tier="thorough", mem_gb=16, timeout=1200, unwindset=efk(8), bounds="one-step induction: adv1_n4_lastmax"),
+        H("c03_cursor_advby_n4_lastmax", tier="thorough", mem_gb=16, timeout=1200, unwindset=efk(8), bounds="one-step induction: advby_n4_lastmax"),
+        H("c03_cursor_adv1_n6_last5", tier="thorough", mem_gb=16, timeout=1200, unwindset=efk(10), bounds="one-step induction: adv1_n6_last5"),
+        H("c03_cursor_advby_n6_last5", tier="thorough", mem_gb=16, timeout=1200, unwindset=efk(10), bounds="one-step induction: advby_n6_last5"),
+        H("c03_cursor_seek_n6_last5", tier="thorough", mem_gb=16, timeout=1200, unwindset=efk(10), bounds="one-step induction: seek_n6_last5"),
+        H("c03_cursor_adv1_n8_last1000", tier="thorough", mem_gb=16, timeout=1200, unwindset=efk(12), bounds="one-step induction: adv1_n8_last1000"),
+        H("c03_cursor_advby_n8_last1000", tier="thorough", mem_gb=16, timeout=1200, unwindset=efk(12), bounds="one-step induction: advby_n8_last1000"),
+        H("c03_cursor_adv1_n6_last300", tier="thorough", mem_gb=16, timeout=1200, unwindset=efk(10), bounds="one-step induction: adv1_n6_last300"),
+        H("c03_cursor_advby_n6_last300", tier="thorough", mem_gb=16, timeout=1200, unwindset=efk(10), bounds="one-step induction: advby_n6_last300"),
+        H("c03_cursor_exhausted_n4_last1000", tier="quick", mem_gb=16, timeout=1200, unwindset=efk(8), bounds="any op after exhaustion"),
+        H("c03_cursor0_and_empty", tier="quick", mem_gb=16, timeout=600, unwindset=EFU, bounds="cursor()==cursor_from(0); empty sequence"),
         H("c03_witness_must_fail", tier="thorough", kind="witness", timeout=600, unwindset=EFU),
     ],
 )
@@ -221,6 +226,7 @@ PROPS["C17"] = dict(
         H("c17_open_init_inv_n4", tier="quick", timeout=900, mem_gb=20, bounds="constructor state satisfies the invariant; compact iff monotone"),
         H("c17_end_init_inv_n4", tier="quick", timeout=900, mem_gb=20, bounds="constructor state satisfies the invariant (ends)"),
         H("c17_end1_n4_tl100", tier="quick", timeout=900, mem_gb=16, bounds="ends n=4: every single lookup from the fresh state"),
+        H("c17_end2_n3_tl60", tier="quick", timeout=3000, mem_gb=20, bounds="ends n=3: every 2-lookup history from the fresh state"),
         H("c17_end2_n4_tl100", tier="thorough", timeout=2700, mem_gb=24, bounds="ends n=4: every 2-lookup history from the fresh state"),
         H("c17_dense_fallback_n4", tier="quick", timeout=900, mem_gb=20, bounds="non-monotone n=4"),
         H("c17_witness_must_fail", tier="thorough", kind="witness", timeout=600, unwindset=EFU),
@@ -561,6 +567,29 @@ PROPS["C08"] = dict(
 U16 = {r"spec_find2|spec_spaces|spec_newline|spec_block_end|spec_anchor|c16_": 74,
        r"find_quote_or_escape|find_single_quote|count_leading_spaces|find_newline|find_block_scalar_end|parse_anchor_name": 74}
 
+def u16be(n, start, simd):
+    """tight per-loop bounds for the block-scalar-end kernels: text of n bytes, scan from `start`,
+    simd in {"sse2", "avx2", "any"}; unwinding assertions stay on, so a bound that is too small is reported"""
+    d = {r"spec_block_end|c16_": n + 2}
+    rem = n - start
+    if simd in ("sse2",):
+        tail = 18
+    elif simd == "avx2":
+        tail = 34
+    else:
+        tail = n + 2
+    d[r"find_block_scalar_end_scalar"] = min(tail, n + 2)
+    d[r"find_block_scalar_end_sse2.*[.]3$"] = rem // 16 + 2
+    d[r"find_block_scalar_end_sse2.*[.]2$"] = 18
+    d[r"find_block_scalar_end_sse2.*[.]1$"] = 17
+    d[r"find_block_scalar_end_sse2.*[.]0$"] = max(2, n - 16 + 1)
+    d[r"find_block_scalar_end_avx2.*[.]3$"] = rem // 32 + 2
+    d[r"find_block_scalar_end_avx2.*[.]2$"] = 34
+    d[r"find_block_scalar_end_avx2.*[.]1$"] = 33
+    d[r"find_block_scalar_end_avx2.*[.]0$"] = max(2, n - 32 + 1)
+    return d
+
+
 U16DEEP = {r"spec_block_end|c16_": 52, r"find_block_scalar_end_(sse2|avx2).*[.]0$": 36, r"find_block_scalar_end_(sse2|avx2).*[.][12]$": 34, r"find_block_scalar_end_(sse2|avx2).*[.]3$": 5, r"find_block_scalar_end_scalar": 50}
 
 PROPS["C16"] = dict(
@@ -591,13 +620,15 @@ PROPS["C16"] = dict(
         H("c16_spaces_n33_s1_any", timeout=1800, unwindset=U16, tier="thorough", bounds="all buffers of that length at that start; other arguments symbolic", replay="trace"),
         H("c16_spaces_n15_s0_any", timeout=1800, unwindset=U16, tier="thorough", bounds="all buffers of that length at that start; other arguments symbolic", replay="trace"),
         H("c16_spaces_n16_s16_any", timeout=1800, unwindset=U16, tier="quick", bounds="all buffers of that length at that start; other arguments symbolic", replay="trace"),
-        H("c16_block_end_n40_s0_avx2", timeout=1800, mem_gb=24, unwindset=U16, tier="thorough", bounds="all buffers of that length at that start; other arguments symbolic"),
-        H("c16_block_end_n40_s3_avx2", timeout=2700, mem_gb=24, unwindset=U16, tier="thorough", bounds="all buffers of that length at that start; other arguments symbolic"),
-        H("c16_block_end_n66_s1_avx2", timeout=1800, mem_gb=24, unwindset=U16, tier="thorough", bounds="all buffers of that length at that start; other arguments symbolic"),
-        H("c16_block_end_n40_s0_sse2", timeout=1800, mem_gb=24, unwindset=U16, tier="thorough", bounds="all buffers of that length at that start; other arguments symbolic"),
-        H("c16_block_end_n34_s2_sse2", timeout=1800, mem_gb=24, unwindset=U16, tier="quick", bounds="all buffers of that length at that start; other arguments symbolic"),
-        H("c16_block_end_n20_s0_any", timeout=1800, mem_gb=24, unwindset=U16, tier="quick", bounds="all buffers of that length at that start; other arguments symbolic", replay="trace"),
-        H("c16_block_end_n12_s12_any", timeout=1800, mem_gb=24, unwindset=U16, tier="quick", bounds="all buffers of that length at that start; other arguments symbolic", replay="trace"),
+        H("c16_block_end_n40_s0_avx2", timeout=1800, mem_gb=16, unwindset=u16be(40, 0, "avx2"), tier="thorough", bounds="all buffers of that length at that start; other arguments symbolic"),
+        H("c16_block_end_n40_s3_avx2", timeout=2700, mem_gb=16, unwindset=u16be(40, 3, "avx2"), tier="thorough", bounds="all buffers of that length at that start; other arguments symbolic"),
+        H("c16_block_end_n66_s1_avx2", timeout=1800, mem_gb=16, unwindset=u16be(66, 1, "avx2"), tier="thorough", bounds="all buffers of that length at that start; other arguments symbolic"),
+        H("c16_block_end_n40_s0_sse2", timeout=1800, mem_gb=16, unwindset=u16be(40, 0, "sse2"), tier="thorough", bounds="all buffers of that length at that start; other arguments symbolic"),
+        H("c16_block_end_indent_sse2", timeout=2700, mem_gb=16, unwindset=u16be(50, 0, "sse2"), tier="quick", bounds="indentation sweep: 50-byte text 'x\\n' + S spaces + arbitrary byte + filler + short last line, S,min_indent in 0..=26"),
+        H("c16_block_end_indent_avx2", timeout=3600, mem_gb=16, unwindset=u16be(50, 0, "avx2"), tier="thorough", bounds="indentation sweep: 50-byte text 'x\\n' + S spaces + arbitrary byte + filler + short last line, S,min_indent in 0..=26"),
+        H("c16_block_end_n34_s2_sse2", timeout=1800, mem_gb=16, unwindset=u16be(34, 2, "sse2"), tier="quick", bounds="all buffers of that length at that start; other arguments symbolic"),
+        H("c16_block_end_n20_s0_any", timeout=1800, mem_gb=16, unwindset=u16be(20, 0, "any"), tier="quick", bounds="all buffers of that length at that start; other arguments symbolic", replay="trace"),
+        H("c16_block_end_n12_s12_any", timeout=1800, mem_gb=16, unwindset=u16be(12, 12, "any"), tier="quick", bounds="all buffers of that length at that start; other arguments symbolic", replay="trace"),
         H("c16_anchor_n40_s0_avx2", timeout=1800, unwindset=U16, tier="thorough", bounds="all buffers of that length at that start; other arguments symbolic"),
         H("c16_anchor_n40_s1_avx2", timeout=1800, unwindset=U16, tier="quick", bounds="all buffers of that length at that start; other arguments symbolic"),
         H("c16_anchor_n70_s2_avx2", timeout=1800, unwindset=U16, tier="thorough", bounds="all buffers of that length at that start; other arguments symbolic"),
@@ -609,7 +640,7 @@ PROPS["C16"] = dict(
         H("c16_classify_n40_o25_cr_any", timeout=1800, unwindset=U16, tier="quick", bounds="all buffers of that length at that start; other arguments symbolic", replay="trace"),
         H("c16_quote_n40_s3_avx2", fs="scalar-yaml", timeout=1800, unwindset=U16, tier="quick", bounds="scalar-yaml build: pure scalar kernel, same harness"),
         H("c16_spaces_n40_s5_avx2", fs="scalar-yaml", timeout=1800, unwindset=U16, tier="quick", bounds="scalar-yaml build: pure scalar kernel, same harness"),
-        H("c16_block_end_n20_s0_any", fs="scalar-yaml", timeout=1800, mem_gb=24, unwindset=U16, tier="quick", bounds="scalar-yaml build: pure scalar kernel, same harness"),
+        H("c16_block_end_n20_s0_any", fs="scalar-yaml", timeout=1800, mem_gb=16, unwindset=u16be(20, 0, "any"), tier="quick", bounds="scalar-yaml build: pure scalar kernel, same harness"),
         H("c16_anchor_n40_s1_avx2", fs="scalar-yaml", timeout=1800, unwindset=U16, tier="quick", bounds="scalar-yaml build: pure scalar kernel, same harness"),
         H("c16_witness_must_fail", kind="witness", tier="thorough", timeout=900, unwindset=U16),
     ],
